@@ -87,7 +87,8 @@ def generate(repo):
     if len(lits) != 1 or body.count("depth ==") != 2:
         raise TieBroken("radix_sort: expected exactly two `depth == N` tests with one N, found %r" % sorted(lits))
     out += "(* the bottom level special-cased by radix_sort / generate_merkle_tree_recurse (depth is u8) *)\n"
-    out += "Definition last_depth : N := %d.\n\n" % rust_int(lits.pop())
+    last_depth = rust_int(lits.pop())
+    out += "Definition last_depth : N := %d.\n\n" % last_depth
 
     body = norm_ws(fn_body(src, r"pub fn compute_merkle_set_root\(leafs: &mut \[\[u8; 32\]\]\) -> \[u8; 32\] \{", "compute_merkle_set_root"))
     if "hasher.update([NodeType::Term as u8]); hasher.update(hash); hasher.finalize()" not in body:
@@ -115,6 +116,11 @@ def generate(repo):
         raise TieBroken("deserialize_proof_impl: depth bookkeeping changed")
     out += "(* deserialize_proof_impl rejects a MIDDLE when `depth > proof_depth_limit` *)\n"
     out += "Definition proof_depth_limit : N := %d.\n\n" % rust_int(lims[0])
+
+    body = norm_ws(fn_body(src, r"fn generate_merkle_tree_recurse\(\s*&mut self,\s*range: &mut \[\[u8; 32\]\],\s*depth: u8,\s*\) -> \(\[u8; 32\], NodeType\) \{", "generate_merkle_tree_recurse"))
+    lits2 = set(re.findall(r"depth == ([0-9_]+)", body))
+    if body.count("depth ==") != 2 or len(lits2) != 1 or rust_int(lits2.pop()) != last_depth:
+        raise TieBroken("generate_merkle_tree_recurse: expected exactly two `depth == %d` tests as in radix_sort" % last_depth)
 
     body = norm_ws(fn_body(src, r"fn hash_leaf\(leaf: &\[u8; 32\]\) -> \[u8; 32\] \{", "hash_leaf"))
     if body != "let mut hasher = Sha256::new(); hasher.update([NodeType::Term as u8]); hasher.update(leaf); hasher.finalize()":
